@@ -223,3 +223,170 @@ pub proof fn lemma_lex_hybop(op: HybridOp, v: Seq<char>, d: Option<Seq<char>>, y
         },
     }
 }
+// ---- the tokenizer reads a printed tree back as the single token tk(t)
+pub proof fn lemma_render_nonempty(t: STree, ext: bool)
+    requires printable(t, ext)
+    ensures render(t).len() > 0
+    decreases t
+{
+    reveal_strlit("("); reveal_strlit("True"); reveal_strlit("False"); reveal_strlit("{"); reveal_strlit("%");
+}
+pub proof fn lemma_lex_render_atom(a: SAtom, ext: bool, rest: Seq<char>, top: bool)
+    requires printable(STree::Term(a), ext), boundary(rest)
+    ensures lex_group(disp_atom(a) + rest, top, ext) == cons_tok(tk(STree::Term(a)), lex_group(rest, top, ext))
+{
+    broadcast use axiom_alnum_ascii;
+    reveal_strlit("{"); reveal_strlit("}"); reveal_strlit("%");
+    let t = STree::Term(a);
+    let s = disp_atom(a) + rest;
+    match a {
+        SAtom::True => {
+            lemma_kw_facts(); lemma_strlits(); reveal_strlit("True");
+            lemma_lex_word("True"@, rest, ext);
+            assert(s[0] == 'T');
+            lemma_lex_step(s, top, ext, tk(t), rest);
+        },
+        SAtom::False => {
+            lemma_kw_facts(); lemma_strlits(); reveal_strlit("False");
+            lemma_lex_word("False"@, rest, ext);
+            assert(s[0] == 'F');
+            lemma_lex_step(s, top, ext, tk(t), rest);
+        },
+        SAtom::Prop(n) => {
+            lemma_lex_word(n, rest, ext);
+            assert(s[0] == n[0] && name_char(n[0]));
+            lemma_lex_step(s, top, ext, tk(t), rest);
+        },
+        SAtom::Var(x) => {
+            assert(s =~= seq!['{'] + x + seq!['}'] + rest);
+            lemma_lex_var(x, rest, ext);
+            assert(s[0] == '{');
+            lemma_lex_step(s, top, ext, tk(t), rest);
+        },
+        SAtom::Wild(p) => {
+            assert(s =~= seq!['%'] + p + seq!['%'] + rest);
+            lemma_lex_wild(p, rest);
+            assert(s[0] == '%');
+            lemma_lex_step(s, top, ext, tk(t), rest);
+        },
+    }
+}
+pub proof fn lemma_lex_render_un(op: UnaryOp, c: STree, ext: bool, rest: Seq<char>, top: bool)
+    requires lex_group(render(c) + (seq![')'] + rest), false, ext) == cons_tok(tk(c), lex_group(seq![')'] + rest, false, ext))
+    ensures ({ let t = STree::Un(op, Box::new(c)); lex_group(render(t) + rest, top, ext) == cons_tok(tk(t), lex_group(rest, top, ext)) })
+{
+    reveal_strlit("("); reveal_strlit(")"); reveal_strlit(" ");
+    let t = STree::Un(op, Box::new(c));
+    let open = seq!['(']; let close = seq![')']; let sp = seq![' '];
+    assert("("@ =~= open && ")"@ =~= close && " "@ =~= sp);
+    let sep = if op is Not { Seq::<char>::empty() } else { sp };
+    let tail = close + rest;
+    let body = render(c) + tail;
+    let inner = disp_unary(op) + sep + body;
+    assert(render(t) + rest =~= open + inner);
+    lemma_lex_unop(op, body, false, ext);
+    lemma_lex_close(rest, ext);
+    let toks = seq![STok::Unary(op), tk(c)];
+    assert(seq![STok::Unary(op)] + (seq![tk(c)] + Seq::<STok>::empty()) =~= toks);
+    assert(lex_group(inner, false, ext) == Some((toks, rest)));
+    lemma_lex_open(inner, top, ext, toks, rest);
+}
+pub proof fn lemma_lex_render_bin(op: BinaryOp, l: STree, r: STree, ext: bool, rest: Seq<char>, top: bool)
+    requires
+        lex_group(render(r) + (seq![')'] + rest), false, ext) == cons_tok(tk(r), lex_group(seq![')'] + rest, false, ext)),
+        ({ let b1 = seq![' '] + (disp_binary(op) + seq![' '] + (render(r) + (seq![')'] + rest)));
+           lex_group(render(l) + b1, false, ext) == cons_tok(tk(l), lex_group(b1, false, ext)) }),
+    ensures ({ let t = STree::Bin(op, Box::new(l), Box::new(r)); lex_group(render(t) + rest, top, ext) == cons_tok(tk(t), lex_group(rest, top, ext)) })
+{
+    reveal_strlit("("); reveal_strlit(")"); reveal_strlit(" ");
+    let t = STree::Bin(op, Box::new(l), Box::new(r));
+    let open = seq!['(']; let close = seq![')']; let sp = seq![' '];
+    assert("("@ =~= open && ")"@ =~= close && " "@ =~= sp);
+    let tail = close + rest;
+    let b3 = render(r) + tail;
+    let b2 = disp_binary(op) + sp + b3;
+    let b1 = sp + b2;
+    let inner = render(l) + b1;
+    assert(render(t) + rest =~= open + inner);
+    lemma_lex_space(b2, false, ext);
+    lemma_lex_binop(op, b3, false, ext);
+    lemma_lex_close(rest, ext);
+    let toks = seq![tk(l), STok::Binary(op), tk(r)];
+    assert(seq![tk(l)] + (seq![STok::Binary(op)] + (seq![tk(r)] + Seq::<STok>::empty())) =~= toks);
+    assert(lex_group(inner, false, ext) == Some((toks, rest)));
+    lemma_lex_open(inner, top, ext, toks, rest);
+}
+pub proof fn lemma_lex_render_hyb(op: HybridOp, v: Seq<char>, d: Option<Seq<char>>, c: STree, ext: bool, rest: Seq<char>, top: bool)
+    requires
+        vname_ok(v), d matches Some(n) ==> ext && !(op is Jump) && vname_ok(n),
+        lex_group(render(c) + (seq![')'] + rest), false, ext) == cons_tok(tk(c), lex_group(seq![')'] + rest, false, ext)),
+    ensures ({ let t = STree::Hyb(op, v, d, Box::new(c)); lex_group(render(t) + rest, top, ext) == cons_tok(tk(t), lex_group(rest, top, ext)) })
+{
+    reveal_strlit("("); reveal_strlit(")"); reveal_strlit(" "); reveal_strlit("{"); reveal_strlit("}"); reveal_strlit(": ");
+    let t = STree::Hyb(op, v, d, Box::new(c));
+    let open = seq!['(']; let close = seq![')']; let sp = seq![' '];
+    assert("("@ =~= open && ")"@ =~= close && " "@ =~= sp);
+    let tail = close + rest;
+    let b2 = render(c) + tail;
+    let b1 = sp + b2;
+    let inner = disp_hybrid(op) + hdr_text(v, d) + b1;
+    assert(": "@ =~= seq![':'] + sp);
+    assert(render(t) + rest =~= open + inner);
+    lemma_lex_hybop(op, v, d, b1, false, ext);
+    lemma_lex_space(b2, false, ext);
+    lemma_lex_close(rest, ext);
+    let toks = seq![STok::Hybrid(op, v, d), tk(c)];
+    assert(seq![STok::Hybrid(op, v, d)] + (seq![tk(c)] + Seq::<STok>::empty()) =~= toks);
+    assert(lex_group(inner, false, ext) == Some((toks, rest)));
+    lemma_lex_open(inner, top, ext, toks, rest);
+}
+pub proof fn lemma_lex_render(t: STree, ext: bool, rest: Seq<char>, top: bool)
+    requires printable(t, ext), boundary(rest)
+    ensures lex_group(render(t) + rest, top, ext) == cons_tok(tk(t), lex_group(rest, top, ext))
+    decreases t
+{
+    broadcast use axiom_alnum_ascii;
+    let tail = seq![')'] + rest;
+    match t {
+        STree::Term(a) => { lemma_lex_render_atom(a, ext, rest, top); },
+        STree::Un(op, c) => {
+            lemma_lex_render(*c, ext, tail, false);
+            lemma_lex_render_un(op, *c, ext, rest, top);
+        },
+        STree::Bin(op, l, r) => {
+            let b1 = seq![' '] + (disp_binary(op) + seq![' '] + (render(*r) + tail));
+            lemma_lex_render(*l, ext, b1, false);
+            lemma_lex_render(*r, ext, tail, false);
+            lemma_lex_render_bin(op, *l, *r, ext, rest, top);
+        },
+        STree::Hyb(op, v, d, c) => {
+            lemma_lex_render(*c, ext, tail, false);
+            lemma_lex_render_hyb(op, v, d, *c, ext, rest, top);
+        },
+    }
+}
+// C06, tokenizer half: the printed text of a printable tree is tokenized as the single token tk(t)
+pub proof fn lemma_lex_printed(t: STree, ext: bool)
+    requires printable(t, ext)
+    ensures lex(render(t), ext) == Some(seq![tk(t)])
+{
+    let e = Seq::<char>::empty();
+    lemma_lex_render(t, ext, e, true);
+    assert(render(t) + e =~= render(t));
+    lemma_lex_group_unfold(e, true, ext);
+    assert(seq![tk(t)] + Seq::<STok>::empty() =~= seq![tk(t)]);
+}
+// C06: print then tokenize then parse is the identity on printable trees
+pub proof fn lemma_print_parse_roundtrip(t: STree, ext: bool, ts: Seq<HctlToken>)
+    requires printable(t, ext), lex(render(t), ext) == Some(view_toks(ts))
+    ensures sp_formula(ts) == Some(t)
+{
+    lemma_lex_printed(t, ext);
+    lemma_view_toks_len(ts);
+    assert(view_toks(ts).len() == 1);
+    lemma_view_toks_index(ts, 0);
+    assert(view_tok(ts[0]) == tk(t));
+    lemma_tk_operand(t);
+    lemma_single_chain(ts);
+    lemma_parse_tk(t, ext, ts);
+}
